@@ -221,6 +221,16 @@ Section Inv.
       [left; exact Z0|right; right; exact Zl].
   Qed.
 
+  (* the same with destructive=False *)
+  Theorem position_is_line_boundary_nd since p :
+    apply_to_file_nd H A L W tsw c since 0 = Some p -> is_line_boundary c p.
+  Proof.
+    unfold apply_to_file_nd.
+    destruct (run H A L W tsw c since 0) as [q| | | | | |] eqn:Er;
+      cbn [position_of_nd position_of]; intro E; inversion E; subst;
+      try (left; reflexivity); try (right; left; reflexivity).
+  Qed.
+
   (* the outcome -> position mapping of apply_to_file *)
   Theorem outcome_position since pos0 :
     apply_to_file H A L W tsw c since pos0 =
